@@ -678,6 +678,21 @@ fn run_trial(u: &Universe, trial: &Trial, obs: &mut Obs) -> Result<(), Failure> 
     obs.label("outcome-ok");
     obs.label(&format!("ok/{class}"));
 
+    // "of at most the requested amount ... anything else is an error": a response carrying more entries than
+    // the request asked for (whatever the surplus entries are) is not a well-formed response
+    {
+        let asked = match &target {
+            Target::Height { amount, .. } => *amount,
+            _ => 1,
+        };
+        if list.len() as u64 > asked {
+            obs.fail(
+                "C28:oversize-response-accepted",
+                format!("a response with {} entries was accepted for a request of {asked}; {}", list.len(), describe()),
+            )?;
+        }
+    }
+
     // ---- oracle on the accepted value
     let offered_ok_typed: Vec<ExtendedHeader> = list
         .iter()
@@ -742,6 +757,7 @@ fn run_trial(u: &Universe, trial: &Trial, obs: &mut Obs) -> Result<(), Failure> 
 }
 
 pub fn run(ctx: &mut Ctx) {
+    ctx.enable_crash_sentinel();
     ctx.assume("header bodies are produced with celestia-types' own protobuf encoder; validity of accepted headers is re-checked with ExtendedHeader::validate (C01 owns its correctness) and, independently, against bodies that are invalid by construction (all signatures broken, DAH removed/cleared/foreign, header field tampered, foreign validator set, forged height)");
     ctx.assume("requests satisfy HeaderRequestExt::is_valid (caller precondition; checked through the hook for every generated request)");
     ctx.assume("the client does not verify chain linkage (documented: done in get_verified_headers_range), so individually valid fork / foreign-chain headers at the right heights are legitimately accepted");
